@@ -67,7 +67,12 @@ class BoundMethod:
 
 class LoopSpec:
     def __init__(self, counter=None, inv=(), variant=None, havoc=None, unroll=None, exit_assume=(), modifies=None,
-                 ghost_init=(), ghost_pre=(), ghost_post=(), types=None, iter_name=None, uses=None):
+                 ghost_init=(), ghost_pre=(), ghost_post=(), types=None, iter_name=None, uses=None, carry=None):
+        # carry: list of spec texts.  When given, the loop is analysed behind a cut: each text is proved in the state before the
+        # loop (obligation carry#k.i) and from then on ONLY the function's preconditions and these facts are known (plus the loop
+        # invariants); everything else learnt before the loop is forgotten.  Forgetting is sound; it keeps the hypotheses of the
+        # loop obligations (and of what follows the loop) few.
+        self.carry = None if carry is None else list(carry)
         # inv entries: 'text' or ('name', 'text').  uses: invariant name -> names of the invariants that may be used as
         # hypotheses (at the loop head and from the sequential cut) when its preservation is proved; the others are dropped
         # from that obligation (dropping hypotheses is sound; it keeps the solver's search small and stable)
@@ -93,10 +98,12 @@ class Contract:
     def __init__(self, params=None, requires=(), ensures=(), raises=None, loops=None, theory=None,
                  inline=(), opaque=(), ghosts=None, public_ensures=(), modifies=(), result=None,
                  fields=None, pure=True, frame=(), no_raise=False, mode='unbounded', defaults=None,
-                 ensures_exc=None, result_kind=None, notes='', ladder=None, lemmas=None, ghost_at=None, ghost_entry=(), replace=None):
+                 ensures_exc=None, result_kind=None, notes='', ladder=None, lemmas=None, ghost_at=None, ghost_entry=(), replace=None, ghost_before=None):
         self.replace = replace or {}        # source-text prefix of a statement -> ghost statements that stand in for it (assumed effect)
         self.ghost_entry = list(ghost_entry)  # ghost statements executed at function entry (after the preconditions are assumed)
         self.ghost_at = ghost_at or {}      # source-text prefix of a statement -> ghost statements executed right after it
+        self.ghost_before = ghost_before or {}   # ... right before it
+        self.replace_optional = ()               # keys of `replace` that need not match (set after construction)
         self.ladder = ladder or []
         self.lemmas = lemmas or []          # inductive lemmas proved at the return point (see Exec.prove_lemmas)
         self.params = params or {}
@@ -143,6 +150,7 @@ class Exec:
         self.spec_funcs = {}
         self.havocked = []
         self.assumed = []          # textual list of assumptions used (opaque calls, models)
+        self._loop_iter = {}
         if getattr(fn_info, 'renamed', None):
             self.assumed.append('extraction: locals alpha-renamed to the names the contract was written with (%s); the old names occur '
                                 'nowhere in the current function' % ', '.join('%s -> %s' % kv for kv in sorted(fn_info.renamed.items())))
@@ -280,9 +288,17 @@ class Exec:
             self.finish_path(s, oc, fnode)
         if self.feasible_paths == 0:
             self.vacuous.append('no path through the function is feasible under the contract')
+        for pat in getattr(self.contract, 'ghost_before', {}):
+            if 'before:' + pat not in self.ghost_at_hits:
+                raise Unsupported('ghost anchor %r matches no statement of the function (the code moved: contract needs re-anchoring)' % pat)
         for pat in getattr(self.contract, 'replace', {}):
-            if 'replace:' + pat not in self.ghost_at_hits:
+            if pat in getattr(self.contract, 'replace_optional', ()):
+                continue      # a statement that is dropped when present (no effect on the proved clauses); it may have been inlined away
+            if 'replace:' + str(pat) not in self.ghost_at_hits:
                 raise Unsupported('replacement anchor %r matches no statement of the function (the code moved: contract needs re-anchoring)' % pat)
+        for k_, (ln_, ok_) in sorted(self._loop_iter.items()):
+            if not ok_:
+                self.vacuous.append('loop #%d (line %d): no iteration is possible under the invariants' % (k_, ln_))
         for pat in self.contract.ghost_at:
             if pat not in self.ghost_at_hits:
                 raise Unsupported('ghost anchor %r matches no statement of the function (the code moved: contract needs re-anchoring)' % pat)
@@ -552,12 +568,18 @@ class Exec:
         if getattr(self.contract, 'replace', None) and not self.spec_mode:
             src = ast.unparse(node)
             for pat, stmts in self.contract.replace.items():
-                if src.startswith(pat):
+                if src.startswith(pat):       # pat: a prefix, or a tuple of alternative prefixes (str.startswith accepts both)
                     # the statement is outside the modelled subset: it is dropped and the listed ghost statements stand in
-                    self.ghost_at_hits.add('replace:' + pat)
+                    self.ghost_at_hits.add('replace:' + str(pat))
                     self.assumed.append('statement at line %d replaced by its assumed effect (%s): %s' % (node.lineno, '; '.join(stmts) or 'no effect on the proved clauses', pat))
                     self.exec_ghost(stmts, st, node)
                     return [(st, None)]
+        if getattr(self.contract, 'ghost_before', None) and not self.spec_mode and isinstance(node, (ast.Assign, ast.Expr, ast.AugAssign)):
+            src = ast.unparse(node)
+            for pat, stmts in self.contract.ghost_before.items():
+                if src.startswith(pat):
+                    self.ghost_at_hits.add('before:' + pat)
+                    self.exec_ghost(stmts, st, node)      # ghost statements executed right BEFORE the anchored statement
         outs = m(node, st)
         if self.contract.ghost_at and not self.spec_mode and isinstance(node, (ast.Assign, ast.Expr, ast.AugAssign)):
             src = ast.unparse(node)
@@ -590,6 +612,13 @@ class Exec:
                                if s_eq(i, n) is not True and s_eq(i, n) is not False else (x if s_eq(i, n) is True else old.get(i)), old.dtype)
                 new.elem = getattr(old, 'elem', None)
                 st.store[pl.buf] = new
+                return [(st, None)]
+            if isinstance(f, ast.Attribute) and isinstance(f.value, ast.Name) and f.attr == 'extend' \
+                    and isinstance(st.env.get(f.value.id), SeqVal) and len(node.value.args) == 1:
+                # xs.extend(ys) is xs += ys
+                cur = st.env[f.value.id]
+                other = self.eval(node.value.args[0], st)
+                st.env[f.value.id] = self.binop(ast.Add(), cur, other, st, node)
                 return [(st, None)]
             if isinstance(f, ast.Attribute) and isinstance(f.value, ast.Name) and f.attr in ('append', 'insert') \
                     and isinstance(st.env.get(f.value.id), SeqVal):
@@ -991,14 +1020,33 @@ class Exec:
             if len(outs) != 1 or outs[0][1] is not None:
                 raise Unsupported('ghost statement %r branches' % text)
 
-    def ghost_names(self, spec):
+    def ghost_names(self, spec, body=()):
+        """ghost variables written inside the loop: by the loop's own ghost_pre / ghost_post statements and by the ghost_at
+        statements anchored at statements of the loop body (they must be havocked at the loop head like any other variable the
+        body writes; otherwise the invariants would only be checked for their pre-loop value)"""
         names = set()
-        for text in list(spec.ghost_pre) + list(spec.ghost_post):
+        texts = list(spec.ghost_pre) + list(spec.ghost_post)
+        if self.contract.ghost_at:
+            for stmt in body:
+                for n in ast.walk(stmt):
+                    if isinstance(n, (ast.Assign, ast.Expr, ast.AugAssign)):
+                        src = ast.unparse(n)
+                        for pat, stmts in self.contract.ghost_at.items():
+                            if src.startswith(pat):
+                                texts += [t for t in stmts if not t.lstrip().startswith('assert ')]
+        for text in texts:
             for n in ast.walk(ast.parse(text)):
                 if isinstance(n, ast.Assign):
                     for t in n.targets:
                         if isinstance(t, ast.Name):
                             names.add(t.id)
+                        elif isinstance(t, ast.Subscript) and isinstance(t.value, ast.Name):
+                            pass        # element writes into a ghost buffer are covered by the loop's `modifies` / buffer havoc
+                elif isinstance(n, ast.AugAssign) and isinstance(n.target, ast.Name):
+                    names.add(n.target.id)
+                elif isinstance(n, ast.Call) and isinstance(n.func, ast.Attribute) and isinstance(n.func.value, ast.Name) \
+                        and n.func.attr in ('append', 'insert', 'extend', 'pop'):
+                    names.add(n.func.value.id)
         return names
 
     def region_fn(self, lam, st, cname, cnt):
@@ -1152,8 +1200,14 @@ class Exec:
         if spec.havoc:
             names |= set(spec.havoc)
         self._rebound = self.rebound_names(node.body)
-        names |= self.ghost_names(spec)
+        names |= self.ghost_names(spec, node.body)
         self.exec_ghost(spec.ghost_init, st)
+        if spec.carry is not None:
+            kept = []
+            for i, text in enumerate(spec.carry):
+                self.emit(st, 'carry#%d.%d' % (k, i), self.eval_spec(text, st), node, text)
+                kept.append(to_z3(self.eval_spec(text, st, role='hyp')))
+            st.pc = list(self.entry.pc) + kept
         for vn, ty in spec.types.items():
             if vn in st.env and is_conc_num(st.env[vn]):
                 st.env[vn] = float(st.env[vn]) if ty == 'real' else int(st.env[vn])
@@ -1170,8 +1224,10 @@ class Exec:
             regions[bn] = self.region_fn(lam, body_st, cname, cnt)
         stay_none = {vn for vn, ty in spec.types.items() if ty == 'none'}
         for vn in stay_none:
-            if st.env.get(vn, 0) is not None:
-                self.emit(st, 'inv-init#%d.none:%s' % (k, vn), z3.BoolVal(False), node, '%s is None on loop entry' % vn)
+            v_ = st.env.get(vn, 0)
+            if v_ is not None:
+                self.emit(st, 'inv-init#%d.none:%s' % (k, vn), v_.is_none if isinstance(v_, OptVal) else z3.BoolVal(False), node,
+                          '%s is None on loop entry' % vn)
         self.havoc(body_st, names - {cname} - stay_none, bufs, attrs, regions)
         body_st.env[cname] = cnt
         body_st.assume(cnt >= 0)
@@ -1194,9 +1250,10 @@ class Exec:
         if spec.variant:
             var0 = self.eval_spec_value(spec.variant, body_st)
             self.emit(body_st, 'variant-nonneg#%d' % k, to_z3(s_le(0, var0)), node, spec.variant)
-        if not self.feasible(body_st):
-            self.vacuous.append('loop #%d (line %d): no iteration is possible under the invariants' % (k, node.lineno))
-        if self.feasible(body_st):
+        can_iterate = self.feasible(body_st)
+        seen = self._loop_iter.setdefault(k, [node.lineno, False])
+        seen[1] = seen[1] or can_iterate        # vacuity guard: some path must allow an iteration (checked at the end of run())
+        if can_iterate:
             self.covers.append((node.lineno, 'loop-body'))
             self.exec_ghost(spec.ghost_pre, body_st)
             for s2, oc2 in self.exec_block(node.body, body_st):
@@ -1204,8 +1261,10 @@ class Exec:
                     self.exec_ghost(spec.ghost_post, s2)
                     s2.env[cname] = cnt + 1
                     for vn in sorted(stay_none):
-                        if s2.env.get(vn, 0) is not None:
-                            self.emit(s2, 'inv-pres#%d.none:%s' % (k, vn), z3.BoolVal(False), node, '%s is still None after the iteration' % vn)
+                        v_ = s2.env.get(vn, 0)
+                        if v_ is not None:
+                            self.emit(s2, 'inv-pres#%d.none:%s' % (k, vn), v_.is_none if isinstance(v_, OptVal) else z3.BoolVal(False), node,
+                                      '%s is still None after the iteration' % vn)
                     cut = []      # an invariant already shown preserved may be used for the following ones (sequential cut)
                     for i, inv in enumerate(spec.inv):
                         nm = spec.inv_names[i]
@@ -1363,9 +1422,16 @@ class Exec:
             return self.eval(node.orelse, st)
         s1 = st.copy()
         s1.assume(c)
-        a = self.eval(node.body, s1)
         s2 = st.copy()
         s2.assume(bnot(c))
+        if not self.spec_mode:
+            # a test that the path condition already decides (e.g. an attribute the contract fixes) selects its branch,
+            # exactly as the statement form `if c: x = a else: x = b` would by pruning the infeasible path
+            if not self.feasible(s2):
+                return self.eval(node.body, s1)
+            if not self.feasible(s1):
+                return self.eval(node.orelse, s2)
+        a = self.eval(node.body, s1)
         b = self.eval(node.orelse, s2)
         # obligations emitted while evaluating the branches carried the branch condition
         return ite(to_z3(c), a, b)
@@ -1595,6 +1661,12 @@ class Exec:
                 return SeqVal(z3.SubSeq(base.s, to_int(lo), to_int(length)), base.elem)
             j, ok = norm_index(idx, n)
             self.emit_all(st, 'index', [(ok, 'index in bounds')], node)
+            pw = getattr(base, 'pointwise', None)
+            if pw is not None and self.pending_defs:
+                # a sequence defined element by element (result of a comprehension): the defining equation at this index is
+                # put next to the occurrence (an instance of the definition; the quantified form has no usable trigger)
+                jj = to_int(j)
+                self.pending_defs[-1].append(z3.Implies(z3.And(jj >= 0, jj < n), base.s[jj] == pw(jj)))
             return base.elem.unpack(base.s[to_int(j)])
         if isinstance(base, PyList):
             a = st.store[base.buf]
@@ -2035,6 +2107,25 @@ class Exec:
             finally:
                 self.spec_mode -= 1
         probe = get(z3.Int(fresh_name('probe')))
+        if isinstance(itv, SeqVal) and isinstance(probe, tuple) and probe and all(is_z3(c) for c in probe):
+            # [f(x) for x in <list modelled as a z3 sequence>] with tuple elements: again a z3 sequence R of the same length with
+            # R[k] == f(xs[k]) for every position (a definition of R, not an assumption about the program)
+            cods = []
+            for c in probe:
+                cod = {Sym: SymCodec, z3.IntSort(): IntCodec, z3.RealSort(): RealCodec}.get(c.sort())
+                if cod is None:
+                    cods = None
+                    break
+                cods.append(cod)
+            if cods:
+                tc = tuple_codec(cods)
+                R = z3.Const(fresh_name('mapped'), z3.SeqSort(tc.sort))
+                st.assume(z3.Length(R) == to_int(ln))
+                qk = z3.Int(fresh_name('mk'))
+                st.assume(z3.ForAll([qk], z3.Implies(z3.And(qk >= 0, qk < to_int(ln)), R[qk] == tc.pack(get(qk))), patterns=[R[qk]]))
+                out = SeqVal(R, tc)
+                out.pointwise = lambda kk: tc.pack(get(kk))
+                return out
         res = ArrayVal((ln,), get, dtype_of_value(probe))
         if getattr(itv, 'src', None) is not None:
             res.src = itv.src            # element j still stems from source position src(j) of the original sequence
@@ -2290,7 +2381,19 @@ class Exec:
             return self.call_opaque(qual, args, kwargs, st, node)
         if (short in self.contract.inline or qual in self.contract.inline) or con is None:
             if short not in self.contract.inline and qual not in self.contract.inline:
-                raise Unsupported('call of %s which has neither contract nor inline permission' % qual)
+                # a private, loop-free helper of the same file (typically code a maintainer extracted from the function under
+                # contract) is inlined: its real body is executed symbolically
+                ok_auto = False
+                if short.startswith('_') and not short.startswith('__') and key[0] == self.fn.path:
+                    try:
+                        from .extract import get_function as _gf
+                        callee = _gf(key[0], key[1], root=self.fn.root).node
+                        ok_auto = not any(isinstance(n_, (ast.For, ast.While, ast.AsyncFor)) for n_ in ast.walk(callee))
+                    except KeyError:
+                        ok_auto = False
+                if not ok_auto:
+                    raise Unsupported('call of %s which has neither contract nor inline permission' % qual)
+                self.assumed.append('extraction: private loop-free helper %s of the same file inlined' % qual)
             return self.call_inline(key, args, kwargs, st, node)
         return self.call_contract(qual, key, con, args, kwargs, st, node)
 
